@@ -120,7 +120,7 @@ func c06RunQuerier(w map[string]any, cfg map[string]any, pl *payloads, sseed int
 }
 
 func c06Random(rnd *rand.Rand) vt.Case {
-	c := c03Random(rnd)
+	c := c03Random(rnd, false)
 	delete(c, "cfgs")
 	for _, sv := range vt.List(c["stores"]) {
 		st := vt.Map(sv)
